@@ -447,6 +447,8 @@ func run(c *rig.Ctx) {
 		c.Count("dma_register_sequences", 1)
 	})
 
+	dispatchPart(c)
+
 	// (3) LY never takes a written value: paired runs that differ only in the value written
 	np := c.N(300, 6000)
 	c.Part("ly", np, func(i int64, r *rig.Rng) {
